@@ -50,6 +50,7 @@ def run(ctx) -> None:
     rep.rule("C08.R5", "missing inputs are reported by raising MissingInputError", floor=2)
     rep.rule("C08.R6", "inner bound values enter the specification only under inputs of their wrapper", floor=2)
     rep.rule("C08.R7", "a node counts as bypassed only if a non-empty set of its outputs is provided", floor=2)
+    rep.rule("C08.R12", "order independence: no accumulator is both extended and reduced inside one pass over the nodes (validation results do not depend on the order nodes were listed in)", floor=15)
     rep.rule("C08.R11", "the active scope follows every kind of edge: what a selected producer waits for (ordering) or is routed by (control) is in scope like what it reads", floor=3)
     rep.rule("C08.R10", "validation matches supplied entry points per cycle with the same decomposition (strongly connected components of the data-only graph) that the reported specification lists them by", floor=2)
     rep.rule("C08.R9", "a run-time recomputation of the specification is fed the same raw graph state as the cached one", floor=1)
@@ -246,6 +247,7 @@ def run(ctx) -> None:
     check_inner_bound_merge_complete(ctx, "C08.R6")
     check_spec_recomputation_inputs(ctx, "C08.R9")
     check_cycle_decomposition_agrees(ctx, "C08.R10")
+    check_single_pass_accumulators(ctx, "C08.R12")
     # ---- R11 --------------------------------------------------------------------
     scope_fs = [db.func("graph.input_spec._compute_active_scope")] + [g_ for g_ in db.closure([db.func("graph.input_spec._compute_active_scope")], property_reads=False) if g_.module.name == "hypergraph.graph.input_spec"]
     seen11 = set()
@@ -255,6 +257,45 @@ def run(ctx) -> None:
         seen11.add(f11.qname)
         filt = [x for x in walk_local(f11.node) if isinstance(x, ast.Constant) and x.value in ("edge_type", "ordering", "control", "data")]
         rep.add("C08.R11", f"{f11.qname}:all-edge-kinds", not filt, f"{f11.module.rel}:{filt[0].lineno if filt else f11.lineno}", "reachability over the whole graph (no edge kind is skipped)" if not filt else f"the scope computation distinguishes edge kinds ('{filt[0].value}'): a node the selected producer only waits for drops out of scope, its inputs vanish from the reported specification, and the run with exactly the reported inputs never produces the selected output")
+
+
+def check_single_pass_accumulators(ctx, rule: str, modules: tuple[str, ...] = ("hypergraph.runners._shared.validation", "hypergraph.graph.input_spec", "hypergraph.graph.validation", "hypergraph.graph._conflict")) -> None:
+    """A set/list that one ``for`` loop over the nodes both grows and shrinks ends up depending on the iteration
+    order: 'add the inputs of bypassed nodes, remove those other nodes also consume' gives different answers for
+    [consumer, bypassed] and [bypassed, consumer].  Two passes (grow, then shrink) are order-independent.
+    ``while`` worklists (append + pop until empty) are fixpoint computations and exempt."""
+    db, rep = ctx.db, ctx.rep
+    GROW = {"add", "update", "append", "extend", "setdefault", "insert"}
+    SHRINK = {"discard", "remove", "difference_update", "pop", "clear", "intersection_update", "popitem"}
+    n = 0
+    for f in db.all_funcs():
+        if f.module.name not in modules:
+            continue
+        n += 1
+        bad = []
+        for lp in walk_local(f.node):
+            if not isinstance(lp, (ast.For, ast.AsyncFor)):
+                continue
+            g, s_ = {}, {}
+            for x in ast.walk(lp):
+                if isinstance(x, ast.Call) and isinstance(x.func, ast.Attribute) and isinstance(x.func.value, ast.Name):
+                    if x.func.attr in GROW:
+                        g.setdefault(x.func.value.id, x)
+                    if x.func.attr in SHRINK:
+                        s_.setdefault(x.func.value.id, x)
+                if isinstance(x, ast.AugAssign) and isinstance(x.target, ast.Name):
+                    if isinstance(x.op, (ast.BitOr, ast.Add)):
+                        g.setdefault(x.target.id, x)
+                    if isinstance(x.op, (ast.Sub, ast.BitAnd)):
+                        s_.setdefault(x.target.id, x)
+            for v in sorted(set(g) & set(s_)):
+                # a nested while-worklist inside the for loop is still exempt
+                if any(isinstance(w, ast.While) and any(isinstance(y, ast.Name) and y.id == v for y in ast.walk(w.test)) for w in ast.walk(lp)):
+                    continue
+                bad.append((lp, v))
+        rep.add(rule, f"{f.qname}:no-grow-and-shrink-in-one-pass", not bad, f"{f.module.rel}:{bad[0][0].lineno if bad else f.lineno}", "no accumulator is both extended and reduced within one loop" if not bad else f"'{bad[0][1]}' is both extended and reduced inside the loop at line {bad[0][0].lineno}: the result depends on the order the nodes were listed in (a required input shared with a node listed earlier is waived)")
+    if n < 15:
+        raise AnalysisError(f"only {n} functions scanned")
 
 
 def check_cycle_decomposition_agrees(ctx, rule: str) -> None:
